@@ -415,7 +415,7 @@ PROPS["C19"] = dict(
     quick=[("asan", 16, 30)],
     thorough=[("asan", 16, 1500), ("plain", 16, 4000)],
     floors={"quick": {"objects_observed": 5000, "refusals_checked": 2000, "neighbour_checks": 100,
-                      "heap_objects_released_once": 50}},
+                      "heap_objects_released_once": 50, "empty_registry_thread_runs": 20}},
     rule="evaluation = one observation or one refused operation; the enumeration is run completely at sizes "
          "1,2,3,7,64 by shard 0 and at random sizes by the generated cases; distinct = container size; non-trivial = "
          "every case",
